@@ -60,8 +60,14 @@ func decryptBody(limitBytes int64, key []byte, r *http.Request) error {
 	if r.ContentLength > 0 {
 		content = make([]byte, r.ContentLength)
 		_, err = io.ReadFull(r.Body, content)
+	} else if limitBytes > 0 {
+		// unknown length: the limit is enforced on what is actually read
+		content, err = io.ReadAll(io.LimitReader(r.Body, limitBytes+1))
+		if err == nil && int64(len(content)) > limitBytes {
+			return errContentLengthExceeded
+		}
 	} else {
-		content, err = io.ReadAll(io.LimitReader(r.Body, maxBytes))
+		content, err = io.ReadAll(r.Body)
 	}
 	if err != nil {
 		return err
